@@ -36,7 +36,7 @@ Definition history_statement (g : cfg) (dom : list ev -> bool) : Prop :=
 
 (** (ii) reproducible text in two fresh sessions *)
 Definition repro_statement (g : cfg) : Prop :=
-  forall (A1 A2 : oracle) l b, jointly_injective A1 -> jointly_injective A2 -> (forall i, A1 i 3 = A2 i 3) ->
+  forall (A1 A2 : oracle) l b, jointly_injective A1 -> jointly_injective A2 -> (forall i k, is_ctr_slot k = true -> A1 i k = A2 i k) ->
     map skel_obs (obs_of b (run g (annotate A1 l))) = map skel_obs (obs_of b (run g (annotate A2 l))) /\
     (forallb closed_obs (obs_of b (run g (annotate A1 l))) = true ->
      obs_of b (run g (annotate A1 l)) = obs_of b (run g (annotate A2 l))).
